@@ -4,6 +4,7 @@
   Per function: how many index / slice expressions the current source has, and why they are in range — or that
   the function is outside the properties (API misuse / dead code), so that nobody mistakes silence for coverage.
 -/
+import GoBT.Script.IndexReviewedLib
 import GoBT.Gen.IndexingBt
 import GoBT.Gen.IndexingBscript
 namespace GoBT.Script
@@ -54,12 +55,22 @@ def indexReviewBscript : List (String × Nat × String) := [
   ("isP2PKHInscriptionHelper", 29, "every parts[i][j] follows the guards added by fix 5ae7176 (>= 13 parts, inspected parts non-empty, marker >= 3 bytes). Model: isP2PKHInscriptionParts with explicit `?` indexing; C14.isP2PKHInscriptionParts_total.")
 ]
 
-def countIn (sites : List (String × String × String)) (fn : String) : Nat := (sites.filter fun s => s.2.1 == fn).length
+def occurrencesIn (l : List (String × String)) (fn e : String) : Nat := (l.filter fun s => s.1 == fn && s.2 == e).length
 
-def reviewOk (sites : List (String × String × String)) (review : List (String × Nat × String)) : Bool :=
-  (sites.all fun s => review.any fun r => r.1 == s.2.1) && (review.all fun r => countIn sites r.1 == r.2.1)
+/-- every function with a site has a review entry; every current expression is a reviewed one of its function, at most as
+    many times as reviewed -/
+def reviewOk (sites : List (String × String × String)) (review : List (String × Nat × String))
+    (reviewed : List (String × String)) : Bool :=
+  let cur := sites.map fun s => (s.2.1, s.2.2)
+  (cur.all fun s => review.any fun r => r.1 == s.1) &&
+  (cur.all fun s => occurrencesIn cur s.1 s.2 ≤ occurrencesIn reviewed s.1 s.2)
 
-def indexReviewBtOk : Bool := reviewOk GoBT.Gen.IndexingBt.sites indexReviewBt
-def indexReviewBscriptOk : Bool := reviewOk GoBT.Gen.IndexingBscript.sites indexReviewBscript
+def unreviewed (sites : List (String × String × String)) (review : List (String × Nat × String))
+    (reviewed : List (String × String)) : List (String × String) :=
+  let cur := sites.map fun s => (s.2.1, s.2.2)
+  cur.filter fun s => !(review.any fun r => r.1 == s.1) || occurrencesIn cur s.1 s.2 > occurrencesIn reviewed s.1 s.2
+
+def indexReviewBtOk : Bool := reviewOk GoBT.Gen.IndexingBt.sites indexReviewBt reviewedSitesBt
+def indexReviewBscriptOk : Bool := reviewOk GoBT.Gen.IndexingBscript.sites indexReviewBscript reviewedSitesBscript
 
 end GoBT.Script
